@@ -1216,6 +1216,20 @@ impl MarkerTree {
     }
 }
 
+/// Verification hooks: the raw interned id of a marker and the size of the node arena.
+#[cfg(pep508_rs_verif)]
+impl MarkerTree {
+    /// The raw value of the node id (index and complement bit).
+    pub fn verif_raw_id(&self) -> usize {
+        self.0.verif_raw()
+    }
+
+    /// The number of nodes in the global arena.
+    pub fn verif_arena_len() -> usize {
+        INTERNER.shared.verif_len()
+    }
+}
+
 impl fmt::Debug for MarkerTree {
     fn fmt(&self, f: &mut Formatter<'_>) -> fmt::Result {
         if self.is_true() {
